@@ -208,6 +208,9 @@ def _subchecks(hist, st, acc, parser):
                             acc.fail("label-named-like-typedef:" + r[0],
                                      {"text": text, "depth": d, "probe": pid, "name": name, "typedef": True,
                                       "history": [list(e) for e in h2], "kind": "probe"}, r[1])
+        # (S3) enumerators: visible after their own enumerator, not inside it
+        if td and S.apply(st, ("enum", name)) is not None:
+            _enum_self_check(hist, st, name, d, acc, parser)
         # (S2) the declared name is visible from the end of its declarator
         if td and S.apply(st, ("obj", name)) is not None:
             for pid, tmpl, want in S.OWN_INIT_PROBES:
@@ -219,6 +222,40 @@ def _subchecks(hist, st, acc, parser):
                     acc.fail("declared-name-not-visible-before-declaration-ends" if r[0] == "mismatch" else "own-initializer:" + r[0],
                              {"text": text, "depth": d, "probe": pid, "name": name, "typedef": False,
                               "history": [list(e) for e in hist], "kind": "own-init"}, r[1])
+
+
+def _enum_self_check(hist, st, name, d, acc, parser):
+    """(S3) the scope of an enumerator begins just after its own enumerator
+    (C99 6.2.1p7): inside its value the name still means the outer typedef,
+    in the NEXT enumerator's value it is the enumeration constant."""
+    from models.stmt_model import N as _N, ID as _ID
+
+    tn = _N("Typename", None, (), None, _N("TypeDecl", None, (), None, _N("IdentifierType", (name,))))
+    forms = (
+        ("sizeof", "sizeof ( %s )" % name, _N("UnaryOp", "sizeof", tn)),
+        ("cast", "( %s ) 1" % name, _N("Cast", tn, _N("Constant", "int", "1"))),
+    )
+    for pid, val, want in forms:
+        text = S.program(hist, st, "enum { %s = %s , z9 = sizeof ( %s ) } ;" % (name, val, name))
+        acc.add("programs")
+        acc.add("sub_enum_self_probes")
+        out = core.parse_outcome(text, parser=parser)
+        case = {"text": text, "depth": d, "probe": "enum-self-" + pid, "name": name, "typedef": True,
+                "history": [list(e) for e in hist], "kind": "enum-self"}
+        if out[0] != "ok":
+            acc.fail("enumerator-own-value:" + ("reject" if out[0] == "perr" else "exc"), case, str(out[1:])[:150])
+            continue
+        node = _probe_node(out[1], d)
+        try:
+            enums = node.type.values.enumerators
+            got1, got2 = core.canon(enums[0].value), core.canon(enums[1].value)
+        except Exception as e:  # noqa
+            acc.fail("enumerator-own-value:shape", case, repr(e)[:100])
+            continue
+        if got1 != want:
+            acc.fail("enumerator-visible-inside-its-own-value", case, "expected %s got %s" % (_cls(want), _cls(got1)))
+        if got2 != _N("UnaryOp", "sizeof", _ID(name)):
+            acc.fail("enumerator-not-visible-in-next-enumerator", case, "got %s" % (_cls(got2),))
 
 
 def _work(task):
